@@ -217,6 +217,13 @@ def log(*entry):
     S.log.append((len(S.log), S.work) + entry)
 
 
+def bdigest():
+    """Behavioural digest: the event log without sequence numbers and work stamps (what happened,
+    in which order -- not after how many work units; a process-level cache inside the engine may
+    legitimately change the latter)."""
+    return digest([list(e[2:]) for e in S.log])
+
+
 def digest(obj=None):
     data = S.log if obj is None else obj
     return hashlib.sha256(
